@@ -205,6 +205,7 @@ class OutputAsync(addons.AddonAsync, block.SBlock):
         self._queue: asyncio.Queue
         # True = the output task is being cancelled by the control task (mode 'cancel')
         self._cancel_requested = False
+        self._stopping = False      # True = stop() was called
         super().__init__(*args, **kwargs)
         if self._guard_time > self.stop_timeout:
             raise ValueError(
@@ -225,7 +226,12 @@ class OutputAsync(addons.AddonAsync, block.SBlock):
             self.log_debug("output task cancelled")
             for ev in self._on_cancel:
                 ev.send(self, trigger='cancel', put=data)
-            if not self._cancel_requested:
+            task = asyncio.current_task()
+            if hasattr(task, 'cancelling'):     # Python 3.11+
+                cancelled = task.cancelling() > 0   # False = raised by the coro itself
+            else:
+                cancelled = self._stopping
+            if cancelled and not self._cancel_requested:
                 # not cancelled by the control task: the block is being stopped and
                 # the stop_timeout has expired; do not continue with the remaining work
                 raise
@@ -340,6 +346,7 @@ class OutputAsync(addons.AddonAsync, block.SBlock):
         self.set_output(0)
 
     def stop(self) -> None:
+        self._stopping = True
         # do not compare self._ctrl_coro using "is" (descriptors are in play)
         # pylint: disable-next=comparison-with-callable
         if self._stop_data is not None and self._ctrl_coro != self._ctrl_start:
